@@ -473,6 +473,8 @@ def translate(cfg, outdir):
         if cn not in cfg.get("extern_globals", []):  # extern_globals are defined by the spec (e.g. generated tables)
             c.append("%s %s%s;" % (ct, cn, " = " + const_init[cn] if cn in const_init else ""))
     c.append("int vf_exc;")
+    for cn in em.hooked:  # config call_hooks: the spec may have defined the macro (a ghost wrapper around the call)
+        c.append("#ifndef VF_CALL_%s\n#define VF_CALL_%s(...) %s(__VA_ARGS__)\n#endif" % (cn, cn, cn))
     for lt in em.lifted:
         c.append(lt)
     c += news
@@ -495,7 +497,8 @@ def translate(cfg, outdir):
                        "opt": tm.opt_insts, "set": tm.set_insts,
                        "ilist": {k: list(v) for k, v in tm.ilist_insts.items()},
                        "map": {k: list(v) for k, v in tm.map_insts.items()}},
-            "exceptions": sorted(em.exc_kinds), "truncated_at_stop_call": sorted(set(em.truncated))}
+            "exceptions": sorted(em.exc_kinds), "truncated_at_stop_call": sorted(set(em.truncated)),
+            "call_hooks": list(em.hooked)}
     with open(os.path.join(outdir, "gen.json"), "w") as f:
         json.dump(info, f, indent=1)
     return info
